@@ -249,6 +249,8 @@ def run_case(case):
                 next_observation=np.array([ep_no, t + 1, gid + 0.125]),
                 terminated=term, truncated=trunc,
             )
+            if gid % 3 == 0:  # keyword arguments have no order
+                sample = dict(reversed(list(sample.items())))
             ok, _ = guarded(res, "C04/raises/add_sample", buf.add_sample, **sample)
             if not ok:
                 return res
